@@ -10,7 +10,8 @@ COMMON_ASSUMPTIONS = [
 ]
 
 HISTORY_RULE = ("rapid draws whole histories (1-25 steps quick, 1-60 thorough) of packets (constructed orbiter transfers over all "
-                "routes/recipients/fee lists/denoms/amount classes, other receiver spellings, mutated and garbage memos), admin "
+                "routes/recipients/fee lists/denoms/amount classes incl. every bit length up to 256, other receiver spellings, mutated and garbage "
+                "memos, packet data in JSON spellings on which decoders disagree, Hyperlane routes naming another denomination's token), admin "
                 "messages and environment steps (direct deposits, re-escrow, FTF pause/blacklist, CCTP burn limit), executed on a "
                 "branch of the real SimApp; the oracle runs after every packet step. ")
 
@@ -57,7 +58,10 @@ PROPERTIES = {
                 "route, non-FTF denom). Oracle = reference model, both directions: a listed reason => refused with nothing paid; no listed "
                 "reason (clean environment) => accepted, every recipient credited exactly floor(A*bps/10000) / its fixed amount, zero entries "
                 "credit nothing, forwarded = A - sum. Non-trivial = a list with >= 1 entry where rounding, the sum-vs-A boundary, "
-                "non-compounding (>= 2 bps entries), the entry count or values near 2^256 are decisive; distinct by (A, list).",
+                "non-compounding (>= 2 bps entries), the entry count or values near 2^256 are decisive; distinct by (A, list). Amounts are drawn "
+                "with a uniform bit length 1..256 and around every machine word size; one shape writes a fixed amount in a spelling from a number "
+                "grammar (sign, radix prefix, leading zeros, separators, white space): where base 10 and base 0 read two different numbers the "
+                "model demands only that what is credited is what is deducted.",
         "assumptions": COMMON_ASSUMPTIONS + ["don't-care regions: non-decimal integer spellings of fixed amounts ('+5','007','0x10'), A*bps needing more than 256 bits while the fee itself fits, fee recipient = orbiter account (acceptance only)"],
         "tests": [
             {"test": "TestC04Direct", "quick": 20000, "thorough": 6400000},
@@ -92,7 +96,9 @@ PROPERTIES = {
                 "([fee,fee], [swap,swap], [fee,swap,fee], [swap,fee,swap]), fee lists, amounts up to 2^250, all three routes (a Hyperlane token "
                 "for the swap output exists). Oracle: the recorded action calls (each fee send with recipient/amount/denom, each swap input) equal, "
                 "in order, the reference model's fold of the running coin; the recorded bridge request carries exactly the final coin; whole-ledger "
-                "delta and the two statistics entries equal the model; a repeated identifier => error ack with NO action call executed. "
+                "delta and the two statistics entries equal the model; a repeated identifier => error ack with NO action call executed; a fee list "
+                "the statement refuses at ANY position of the list, or a paused action anywhere in it => error ack (never 'the remaining actions "
+                "were skipped'). "
                 "Non-trivial = >= 2 actions or a denomination change or a repeated identifier; distinct by case.",
         "assumptions": COMMON_ASSUMPTIONS + ["the swap controller is the harness's own (the chain registers none); LAB never deposits its output denom on the orbiter account"],
         "tests": [{"test": "TestC06Orders", "quick": 1500, "thorough": 600000}],
@@ -145,6 +151,7 @@ PROPERTIES = {
                 "routes/recipients/fee lists; the transfer runs on S and on S+deposits. Required equal: ack bytes, ledger delta of every "
                 "account other than orbiter and dust collector, third-party (bridge) events incl. CCTP nonce, exported statistics; in the "
                 "second run the deposited balance of the transferred denom ends on the dust collector and other denoms stay untouched. "
+                "10% of the pairs name another denomination's Hyperlane token with that denomination deposited (it must not pay for the transfer). "
                 "Non-trivial = the transferred denom had a pre-existing balance and the base run succeeded; distinct by (deposits, transfer).",
         "assumptions": COMMON_ASSUMPTIONS,
         "tests": [{"test": "TestC11Pairs", "quick": 2000, "thorough": 800000}],
@@ -153,8 +160,11 @@ PROPERTIES = {
         "level": "exploration",
         "rule": HISTORY_RULE + "After EVERY step the exported dispatcher state is compared with a ledger the harness folds from the "
                 "successful constructed transfers (received coin, forwarded coin computed by the reference model, count). "
-                "Non-trivial = a history with >= 2 successful transfers on >= 2 statistics keys and >= 1 refused transfer; "
-                "distinct by history.",
+                "TestC12FromGenesis starts the history from an IMPORTED genesis: prior totals (up to 2^255) and counters (up to 2^64-1) for the "
+                "routes the history uses; the fold continues from them; a counter asked to exceed 2^64-1 is a counted don't-care while the totals "
+                "of that route are still compared. "
+                "Non-trivial = a history with >= 2 successful transfers on >= 2 statistics keys and >= 1 refused transfer, or a successful "
+                "transfer on a route with imported statistics; distinct by history.",
         "assumptions": COMMON_ASSUMPTIONS + ["stated domain bound: cumulative amount per statistics key below 2^256 (single amounts capped at 2^248)"],
         "tests": [
             {"test": "TestC12History", "quick": 400, "thorough": 160000},
@@ -190,7 +200,11 @@ PROPERTIES = {
                 "independently constructed application instances in one process, and a second time on the first instance; per step the "
                 "acknowledgement bytes, the ordered ABCI event list and a digest of every KV store, and at the end the exported orbiter and bank "
                 "genesis, must be byte-identical. The cross-process test repeats the comparison between two separate OS processes running the "
-                "same seeded history set. Non-trivial = a history with >= 1 error ack and >= 1 success; distinct by history.",
+                "same seeded history set. TestC19FreshInstance: each case is (warm-up, history); the history is replayed on a brand-new instance, on "
+                "a second brand-new instance that first executed the warm-up on a DISCARDED branch, and on the long-lived instance of the process; "
+                "all three transcripts must be identical (state kept outside the store); 60% of the cases send siblings of the warm-up's valid "
+                "transfers (one thing changed) with coins on the orbiter account. "
+                "Non-trivial = a history with >= 1 error ack and >= 1 success; distinct by history.",
         "assumptions": COMMON_ASSUMPTIONS + ["query responses are not compared byte-wise (a proto map field has no defined wire order)"],
         "tests": [
             {"test": "TestC19InProcess", "quick": 250, "thorough": 80000},
@@ -231,7 +245,8 @@ PROPERTIES["C20"] = {
             "(separator shifted). Unit oracle: accepted => ParseCrossChainID(ID()) == pair, no two accepted pairs share a textual form, and for "
             "CCTP/Hyperlane the string equals FormatUint(v,10) for some v < 2^32 and equals the CounterpartyID() of the attributes for v; "
             "every canonical decimal is accepted; genesis validation agrees. Paths oracle (PROD): a non-canonical string is refused by "
-            "genesis validation, PauseCrossChains and IsCrossChainPaused; after a successful pause of a canonical id a valid probe transfer to "
+            "genesis validation (forwarder pause list AND dispatcher amount/count records, source and destination role), PauseCrossChains and "
+            "IsCrossChainPaused; after a successful pause of a canonical id a valid probe transfer to "
             "the domain it denotes is refused. Non-trivial = an accepted CCTP/Hyperlane string or a coupled probe; distinct by (protocol, string).",
     "assumptions": COMMON_ASSUMPTIONS,
     "tests": [
@@ -249,6 +264,9 @@ PROPERTIES["C16"] = {
             "shows what ICS-20 does (error / release of coin (D,A) from escrow / mint of a voucher); the orbiter run may succeed only when ICS-20 "
             "released from escrow and D is the packet denom minus the single own prefix, and then recipient delta, escrow delta and recorded "
             "statistics must be exactly (D,A). Unit test: RecoverNativeDenom vs the transfer module's ReceiverChainIsSource/ParseDenomTrace. "
+            "TestC16Adapter (quick and thorough): the same packets, amounts also from a number-spelling grammar, through IBCAdapter.ParsePacket "
+            "alone; for an accepted packet the coin returned equals the coin the ICS-20 application credits (its own codec, SetString(amount,0), "
+            "its denomination functions). "
             "Thorough tier adds the native coverage-guided campaign FuzzPacket (180 s) with the coin oracle inside the target: an accepted "
             "packet's denom carries the packet's own port/channel prefix exactly once more than a Noble-native denom, the coin acted on is "
             "(denom minus that prefix, amount as ICS-20 reads it). "
@@ -272,7 +290,10 @@ PROPERTIES["C07"] = {
             "full event list and the digest of EVERY store must be equal, and the orbiter store and the orbiter/dust-collector balances "
             "untouched. Same differential for OnAcknowledgementPacket (success and error acks) and OnTimeoutPacket (refund paths). "
             "SendPacket/WriteAcknowledgement/GetAppVersion must reach a recording ICS-4 fake with identical arguments and results. "
-            "Non-trivial = a valid ICS-20 packet or one carrying an orbiter memo; distinct by (callback, data).",
+            "A third of the packets write the five members as text with JSON spelling variants on which decoders disagree (repeated member with "
+            "null/another value before or after, unknown member, member-name case, trailing/leading bytes, escapes, non-string values); whether "
+            "such a packet is addressed to the orbiter account is what the ICS-20 application's own codec reads (out-of-domain cases are counted). "
+            "Non-trivial = a valid ICS-20 packet, one carrying an orbiter memo, or a spelling variant; distinct by (callback, data).",
     "assumptions": COMMON_ASSUMPTIONS + ["destination channels have ibc-go's generated form channel-N (with an ill-formed one the middleware answers itself: C14 territory)"],
     "tests": [
         {"test": "TestC07Differential", "quick": 5000, "thorough": 2400000},
